@@ -144,3 +144,68 @@ def is_empty_fact(facts, text, empty=True):
             if not empty and fa in (('cmp', text, '!=', "''"), ('cmp', text, '!=', '[]')):
                 return True
     return False
+
+
+# --------------------------------------------------------------------------- boolean expressions as truth tables
+
+def bool_eval(func, e, at, env, _depth=0):
+    """Truth value of boolean expression `e` (evaluated at cfg node `at`) under an assignment `env` of truth values
+    to atom texts.  Locals are followed through their guarded value cases.  Raises Unrecognised when something
+    other than the atoms, constants, not/and/or, conditional expressions and such locals is involved."""
+    if _depth > 6:
+        raise Unrecognised('boolean expression too deep')
+    txt = unparse(e)
+    if txt in env:
+        return env[txt]
+    if isinstance(e, ast.Constant) and isinstance(e.value, bool):
+        return e.value
+    if isinstance(e, ast.UnaryOp) and isinstance(e.op, ast.Not):
+        return not bool_eval(func, e.operand, at, env, _depth + 1)
+    if isinstance(e, ast.BoolOp):
+        vals = [bool_eval(func, v, at, env, _depth + 1) for v in e.values]
+        return all(vals) if isinstance(e.op, ast.And) else any(vals)
+    if isinstance(e, ast.IfExp):
+        return bool_eval(func, e.body if bool_eval(func, e.test, at, env, _depth + 1) else e.orelse, at, env, _depth + 1)
+    if isinstance(e, ast.Compare) and len(e.ops) == 1 and isinstance(e.comparators[0], ast.Constant) \
+            and isinstance(e.comparators[0].value, bool) and isinstance(e.ops[0], (ast.Eq, ast.Is, ast.NotEq, ast.IsNot)):
+        v = bool_eval(func, e.left, at, env, _depth + 1)
+        same = v == e.comparators[0].value
+        return same if isinstance(e.ops[0], (ast.Eq, ast.Is)) else not same
+    if isinstance(e, ast.Name) and e.id in func.locals:
+        cases = value_cases(func, e.id, at, expand=False)
+        if not cases:
+            raise Unrecognised('no definition of `%s` reaches' % e.id)
+        hits = []
+        for c in cases:
+            if c.kind != 'value':
+                raise Unrecognised('`%s` is not defined by plain assignments' % e.id)
+            holds = True
+            for fa in c.facts:
+                if fa[0] == 'truthy' and fa[1] in env:
+                    if env[fa[1]] != fa[2]:
+                        holds = False
+                elif fa[0] == 'truthy' and fa[1].isidentifier() and fa[1] in func.locals:
+                    try:
+                        if bool_eval(func, ast.Name(id=fa[1], ctx=ast.Load()), c.node, env, _depth + 1) != fa[2]:
+                            holds = False
+                    except Unrecognised:
+                        pass          # a condition on something else: does not discriminate between the cases here
+            if holds:
+                hits.append(c)
+        if not hits:
+            raise Unrecognised('no case of `%s` applies' % e.id)
+        vals = set(bool_eval(func, c.value, c.node, env, _depth + 1) for c in hits)
+        if len(vals) != 1:
+            raise Unrecognised('cases of `%s` are not discriminated by the atoms' % e.id)
+        return vals.pop()
+    raise Unrecognised('`%s` is not a boolean combination of the atoms' % txt[:60])
+
+
+def truth_table(func, e, at, atoms):
+    """tuple of truth values over all assignments of `atoms` (list of texts), in binary counting order."""
+    out = []
+    n = len(atoms)
+    for k in range(2 ** n):
+        env = dict((a, bool((k >> i) & 1)) for i, a in enumerate(atoms))
+        out.append(bool_eval(func, e, at, env))
+    return tuple(out)
